@@ -144,7 +144,7 @@ func c15History(c *Ctx, id string, conf machConf, wkind string, autosave, autono
 
 func init() {
 	register("C15", func(c *Ctx) {
-		c.Rule = "seeded histories (length 8..26) of management calls incl. no-op, failing (injected adapter errors) and Self* calls, SavePolicy, LoadPolicy, flag toggles, on three models x watcher kinds {plain, ex, upd, none} x the four auto-save/auto-notify settings; every step compared with the model on result, listed rules, notifications with their callback-time snapshots, adapter content. Distinct = history; non-trivial = the history changes the listed rules."
+		c.Rule = "seeded histories (length 8..26) of management calls incl. no-op, failing (injected adapter errors) and Self* calls, SavePolicy, LoadPolicy, flag toggles, on three models x watcher kinds {plain, ex, upd, none} x the four auto-save/auto-notify settings; every step compared with the model on result, listed rules, notifications with their callback-time snapshots, adapter content. Distinct = history; non-trivial = the history changes the listed rules. Additions: every Self* entry point incl. update / filtered removal, UpdateFilteredPolicies, one-rule batches; the peer follows announcements through the callback SetWatcher registered on its own watcher (default reload callback required for every watcher that is not a WatcherEx)."
 		nh := 6000
 		if c.Thorough() {
 			nh = 20000
